@@ -45,7 +45,7 @@ def gen_cases(tier, seed):
                             cases.append({"kind": "spline", "family": fam, "box": bx, "bins": K, "pscale": ps,
                                           "world": world, "seed": env.subseed(seed, "c17s", fam, mag, ps, world, rep, bx),
                                           "cost": 1})
-                        cases.append({"kind": "spline", "family": fam, "box": None, "B": mag, "bins": max(K, 2),
+                        cases.append({"kind": "spline", "family": fam, "box": None, "B": mag, "bins": K,
                                       "pscale": ps, "world": world,
                                       "seed": env.subseed(seed, "c17t", fam, mag, ps, world, rep), "cost": 1})
             # bounds that are not exactly representable: 0.1, 0.3, 1.1, 1.7, 2.2 round UP in float32, 0.7, 3.3 round down;
@@ -184,6 +184,9 @@ def run_case(case):
         xi = interior(case["shape"], None, None, g, dtype) * 3
         judge(r, "%s.%s" % (t, "forward" if direction == "inverse" else "inverse"), lambda z: other(z), xi, True, "any_real",
               {"target": t, "world": case["world"]}, "-")
+        # "any batch size": a batch of one row (a batch without rows has no input to judge: not probed, see DESIGN section 7)
+        judge(r, "%s.%s" % (t, direction), lambda z: fn(z), interior(case["shape"], lo, hi, g, dtype, n=1), True, "single_row",
+              {"target": t, "world": case["world"], "batch": 1}, "-")
         r.sample({"target": t, "direction": direction, "domain": [lo, hi], "closed": [lc, hc]})
         return r.done()
 
@@ -234,6 +237,15 @@ def run_case(case):
                           {"family": fam, "direction": direction, "box": bx, "bins": K, "pscale": ps, "probe": v,
                            "position": idx, "world": case["world"],
                            "square_box": abs((right - left) - (top - bottom)) < 1e-12 and left == bottom}, magcls)
+        # "any batch size": one row sitting on the upper end of the domain
+        for direction in ("forward", "inverse"):
+            inv = direction == "inverse"
+            p1 = {k: v[:1] for k, v in params.items()}
+            top_ = case["B"] if tails else (bx[3] if inv else bx[1])
+            nm = ("unconstrained_%s.%s" if tails else "%s_spline.%s") % (fam, direction)
+            judge(r, nm, lambda z: fn(inputs=z, inverse=inv, **p1, **kw), torch.tensor([top_], dtype=dtype), True, "single_row",
+                  {"family": fam, "direction": direction, "box": bx, "B": case.get("B"), "bins": K, "world": case["world"], "batch": 1},
+                  magcls)
         r.sample({"family": fam, "box": bx, "B": case.get("B"), "bins": K, "pscale": ps, "world": case["world"]})
         return r.done()
 
@@ -244,8 +256,6 @@ def run_case(case):
     if "tails" in cfg:
         cfg["tails"] = tails
         cfg["B"] = B
-        if tails and "bins" in cfg:
-            cfg["bins"] = max(cfg["bins"], 2)
     cfg["uncond"] = False
     if len(cfg["shape"]) == 3:
         cfg["shape"] = [max(2, cfg["shape"][0])] + cfg["shape"][1:]
